@@ -18,7 +18,8 @@ CONSTANTS MaxSteps, MaxScripts, Emit
 (* ---- Part A ---- *)
 FormKinds == {"absent", "empty", "value", "post"}       \* post: the value comes in a POST form body
 HeaderKinds == {"absent", "empty", "value"}
-HostKinds == {"absent", "ascii", "ascii-port", "mixed-case", "punycode", "utf8"}
+HostKinds == {"absent", "ascii", "ascii-port", "mixed-case", "punycode", "punycode-port", "ip4-port", "ip6", "ip6-port", "utf8"}
+Families == {"ip4", "ip6"}                              \* address family the server listens on
 SniKinds == {"absent", "present"}
 
 C2URL(form, header, host, sni, port443) ==
@@ -38,19 +39,20 @@ Render(t) == IF t = "unconfigured" THEN [ok |-> TRUE, with |-> "default"]
 VARIABLES
   mode,      \* "c2" (part A cases) or "tmpl" (part B/C histories)
   form, header, host, sni, port443,
+  fam,       \* listen address family
   tmpl,      \* state of the template file
   issued,    \* number of scripts issued so far (IDs 1..issued, all distinct)
   last,      \* outcome of the last request
   nsteps, act
 
-vars == <<mode, form, header, host, sni, port443, tmpl, issued, last, nsteps, act>>
+vars == <<mode, form, header, host, sni, port443, fam, tmpl, issued, last, nsteps, act>>
 
 Init ==
   /\ mode \in {"c2", "tmpl"}
   /\ IF mode = "c2"
-     THEN /\ form \in FormKinds /\ header \in HeaderKinds /\ host \in HostKinds /\ sni \in SniKinds /\ port443 \in BOOLEAN
+     THEN /\ form \in FormKinds /\ header \in HeaderKinds /\ host \in HostKinds /\ sni \in SniKinds /\ port443 \in BOOLEAN /\ fam \in Families
           /\ tmpl = "unconfigured"
-     ELSE /\ form = "absent" /\ header = "absent" /\ host = "ascii-port" /\ sni = "absent" /\ port443 = FALSE
+     ELSE /\ form = "absent" /\ header = "absent" /\ host = "ascii-port" /\ sni = "absent" /\ port443 = FALSE /\ fam = "ip4"
           /\ tmpl \in TmplStates
   /\ issued = 0 /\ last = [k |-> "none"] /\ nsteps = 0 /\ act = [n |-> "Init"]
 
@@ -58,7 +60,7 @@ Edit(t) ==
   /\ mode = "tmpl" /\ nsteps < MaxSteps
   /\ tmpl # "unconfigured" /\ t # "unconfigured" /\ t # tmpl
   /\ tmpl' = t /\ nsteps' = nsteps + 1 /\ act' = [n |-> "Edit", t |-> t]
-  /\ UNCHANGED <<mode, form, header, host, sni, port443, issued, last>>
+  /\ UNCHANGED <<mode, form, header, host, sni, port443, fam, issued, last>>
 
 Request ==
   /\ mode = "tmpl" /\ nsteps < MaxSteps /\ issued < MaxScripts
@@ -66,7 +68,7 @@ Request ==
   /\ IF Render(tmpl).ok
      THEN issued' = issued + 1 /\ last' = [k |-> "script", with |-> Render(tmpl).with, id |-> issued + 1]
      ELSE issued' = issued /\ last' = [k |-> "error", with |-> tmpl]
-  /\ UNCHANGED <<mode, form, header, host, sni, port443, tmpl>>
+  /\ UNCHANGED <<mode, form, header, host, sni, port443, fam, tmpl>>
 
 Next == Request \/ \E t \in TmplStates : Edit(t)
 Spec == Init /\ [][Next]_vars
@@ -77,11 +79,11 @@ NoScriptOnBadTemplate == [][(act'.n = "Request" /\ ~Render(tmpl).ok) => (last'.k
 RereadEveryRequest == [][act'.n = "Request" => (last'.k = "script" => last'.with = Render(tmpl).with)]_vars
 PrecedenceTotal == mode = "c2" => C2URL(form, header, host, sni, port443).ok \in BOOLEAN
 
-View == <<mode, form, header, host, sni, port443, tmpl, issued, last, nsteps>>
+View == <<mode, form, header, host, sni, port443, fam, tmpl, issued, last, nsteps>>
 EmitCase ==
   \/ ~Emit
   \/ IF mode = "c2"
-     THEN PrintT(<<"CASE", ToJson([form |-> form, header |-> header, host |-> host, sni |-> sni, port443 |-> port443,
+     THEN PrintT(<<"CASE", ToJson([form |-> form, header |-> header, host |-> host, sni |-> sni, port443 |-> port443, fam |-> fam,
                                    res |-> C2URL(form, header, host, sni, port443)])>>)
      ELSE TRUE
 EmitEdge == \/ ~Emit \/ mode # "tmpl"
